@@ -97,4 +97,16 @@ CHECKS = {
   "text": "Part 1: files from a grammar (matrix rows with invented names and I/N/-/numeric cells, pair lines in any order with repeats, default line anywhere or absent, scalar cut-offs set through plain and _squared names in any sequence, comments/tabs) are parsed line by line and through read_parameter_file; after every line all ordered look-ups (incl. unknown names) of both matrices must equal the reference model - which implies symmetry, default fall-back and last-definition-wins - and every squared cut-off must equal the square of the plain one. Part 2 (exhaustive): under the shipped file every ordered pair of the 28 creatable group types has an entry in {I,N,-}, every model-pKa type is written out with a non-zero charge, all inner cut-offs are below the outer ones.",
   "note": "The set of creatable types is derived by introspecting propka/group.py (is_ligand_group_by_groups source, protein_group_mapping). Unreachable matrix rows (SER) are reported in evidence only. Fixed finding F7 (Cl vs CL) is covered by part 2.",
  },
+ "C15": {
+  "level": "exploration",
+  "technique": "differential property-based testing (Hypothesis): the same generated structure with the coupling analysis enabled and disabled (harness toggles NCCG.do_prot_stat), plus symmetry and star predicates",
+  "text": "Whole reference proteins with threaded clusters of like groups around buried positions (31 % of the quick-tier cases end with coupled pairs, 85 % perform swaps), incl. cases in which two neighbouring groups share a label, and the same comparison after an earlier run with the display option in the same process: every pKa must agree within 1e-9 and every determinant multiset exactly; coupling lists must be symmetric; the API determinant string of every group of every conformation and the written table carry a star iff the group has a coupled partner.",
+  "note": "swap_interactions is wrapped from the harness only to count swaps (non-triviality). The toggle is a plain attribute of the module-level NCCG object, restored after each run.",
+ },
+ "C16": {
+  "level": "exploration",
+  "technique": "property-based testing (Hypothesis): sign and bound predicates from the statement on every titratable group of generated structures covering the interaction classes absent from the references; unit-level predicates on the energy functions",
+  "text": "Whole reference proteins with threaded acid-acid, base-base, his-his, cys-cys, cys-his, acid-base, tyr-any clusters at buried positions, library ions (all 21 names) and ligands of every titratable type next to the cluster, corpus-derived structures with every library ligand, and parameter files with desolvationAllowance 0 / 0.1 / 0.4: desolvation and backbone signs, Coulomb signs for like and opposite charges and for ions, bounds (2 x side-chain maximum except the configured CYS-CYS value; Coulomb value at the inner cut-off with dielectric 30, times the formal charge for ions), buried fraction in [0,1], equal-and-opposite Coulomb determinants of acid-base pairs of reported protein side chains; ranges, cut-offs and monotonicity of coulomb_energy, hydrogen_bond_energy and the weight functions.",
+  "note": "Bounds are read from the Parameters object of the run, the constants 244.12 and 30 from the statement. Default options only.",
+ },
 }
